@@ -110,6 +110,11 @@ func Eval(ctx context.Context, executor Executor, roots []*Task, group *status.G
 		for _, task := range state.Runnable() {
 			task.Lock()
 			if task.state == TaskLost {
+				// The evaluation that ran the task may not have seen this
+				// loss yet: count it before the task is run again.
+				task.countLost()
+			}
+			if task.state == TaskLost {
 				log.Printf("evaluator: resubmitting lost task %v", task)
 				task.state = TaskInit
 			}
@@ -120,6 +125,7 @@ func Eval(ctx context.Context, executor Executor, roots []*Task, group *status.G
 			var startRunTime time.Time
 			if runner {
 				task.state = TaskWaiting
+				task.lossUncounted = true
 				task.Status = status
 				startRunTime = time.Now()
 				go executor.Run(task)
@@ -138,22 +144,15 @@ func Eval(ctx context.Context, executor Executor, roots []*Task, group *status.G
 				if runner {
 					if enableMaxConsecutiveLost {
 						// Only the runner bookkeeps consecutiveLost to avoid
-						// double-counting task loss.
+						// double-counting task loss. (An evaluation that
+						// resubmits the task first counts on its behalf.)
 						switch task.state {
 						case TaskOk:
 							task.consecutiveLost = 0
+							task.lossUncounted = false
 						case TaskLost:
-							task.consecutiveLost++
-							if task.consecutiveLost >= maxConsecutiveLost {
-								// We've lost this task too many times, so we
-								// consider it in error.
-								task.state = TaskErr
-								task.err = errors.E(
-									errors.TooManyTries,
-									fmt.Sprintf("lost on %d consecutive attempts", task.consecutiveLost),
-								)
+							if task.countLost() {
 								task.Status.Printf(task.err.Error())
-								task.Broadcast()
 							}
 						}
 					}
@@ -451,4 +450,28 @@ func (s *state) done(src *Task) (ready []*Task) {
 		}
 	}
 	return
+}
+
+// countLost accounts for the loss of a run of the task. Each lost run is
+// counted once, by the first evaluation that observes it: the waiter of an
+// evaluation that ran the task, or an evaluation about to resubmit it. If
+// the task has been lost too many times in a row it is put in TaskErr, and
+// countLost returns true. The task's lock must be held.
+func (t *Task) countLost() bool {
+	if !enableMaxConsecutiveLost || !t.lossUncounted {
+		return false
+	}
+	t.lossUncounted = false
+	t.consecutiveLost++
+	if t.consecutiveLost < maxConsecutiveLost {
+		return false
+	}
+	// We've lost this task too many times, so we consider it in error.
+	t.state = TaskErr
+	t.err = errors.E(
+		errors.TooManyTries,
+		fmt.Sprintf("lost on %d consecutive attempts", t.consecutiveLost),
+	)
+	t.Broadcast()
+	return true
 }
